@@ -86,7 +86,7 @@ def run(run):
     cases = []
     for d in (stmt.DIALECTS[:4] if tier_q else stmt.DIALECTS):
         for tpl, kind in TEMPLATES:
-            for _ in range(4 if tier_q else 40):
+            for _ in range(4 if tier_q else 120):
                 cases.append((d, tpl, kind, payload(run.rng, kind, d), payload(run.rng, kind, d)))
             if kind == "lit1":
                 cases.append((d, tpl, kind, "it''s", ""))              # doubled delimiter, empty literal
